@@ -202,6 +202,12 @@ func c14Cases(tier string) []c14Case {
 		fsmodel.Node{Path: "m2", Kind: fsmodel.Dir, Perm: 0755, Mtime: T}, fsmodel.Node{Path: "m2/sub", Kind: fsmodel.Dir, Perm: 0755, Mtime: T},
 		fsmodel.Node{Path: "m2/sub/x", Kind: fsmodel.File, Perm: 0644, Mtime: T + 5, Data: []byte("SRC:m2/sub/x")}, fsmodel.Node{Path: "m2/sub/y", Kind: fsmodel.Dir, Perm: 0755, Mtime: T},
 		fsmodel.Node{Path: "m2/sub/y/g", Kind: fsmodel.File, Perm: 0644, Mtime: T + 6, Data: []byte("SRC:m2/sub/y/g")})
+	// ... and an inode with two names whose destination paths coincide, with a link to an outside file copied onto
+	// that path in between
+	merge = append(merge, fsmodel.Node{Path: "m1/sub/z", Kind: fsmodel.File, Perm: 0640, Mtime: T + 7, Data: []byte("SRC:z"), HL: 1},
+		fsmodel.Node{Path: "m2/sub/z", Kind: fsmodel.Symlink, Perm: 0777, Mtime: T, Link: "/outside/f"},
+		fsmodel.Node{Path: "m3", Kind: fsmodel.Dir, Perm: 0755, Mtime: T}, fsmodel.Node{Path: "m3/sub", Kind: fsmodel.Dir, Perm: 0755, Mtime: T},
+		fsmodel.Node{Path: "m3/sub/z", Kind: fsmodel.File, Perm: 0640, Mtime: T + 7, Data: []byte("SRC:z"), HL: 1})
 	merge.Sort()
 	srcV = append(srcV, merge)
 	srcArgs := []string{"/", "a", "a/f", "b", "*", "a/*", "l", "l/f", "c", "?", "a/..", "c/../a/..", "a/../../b", "l/a/f", "l/a", "l/a/*", "m?", "m?/sub", "*/sub"}
